@@ -79,6 +79,11 @@ def _wire_buffers(ctx: Context, cfg) -> set[str]:
         for c in ctx.calls(n):
             if isinstance(c.func, ast.Attribute) and c.func.attr == "pop" and isinstance(c.func.value, ast.Name):
                 out.add(c.func.value.id)
+        a = n.ast
+        if n.kind == "stmt" and isinstance(a, ast.Assign) and len(a.targets) == 1 and isinstance(a.targets[0], ast.Name) and isinstance(a.value, ast.Subscript):
+            v = a.value
+            if isinstance(v.value, ast.Name) and v.value.id == a.targets[0].id and isinstance(v.slice, ast.Slice):
+                out.add(v.value.id)  # buf = buf[k:]  (a cursor over the wire bytes)
     return out
 
 
@@ -159,10 +164,145 @@ def _decoder_parts(ctx: Context):
     return f, cfg, pops
 
 
+def _lin(e, buf: str, lenv: str):
+    """linear form  a*len(buf) + b*<length variable> + k  of an expression, or None"""
+    if isinstance(e, ast.Constant) and isinstance(e.value, int) and not isinstance(e.value, bool):
+        return (0, 0, e.value)
+    if isinstance(e, ast.Name) and e.id == lenv:
+        return (0, 1, 0)
+    if isinstance(e, ast.Call) and isinstance(e.func, ast.Name) and e.func.id == "len" and len(e.args) == 1 and isinstance(e.args[0], ast.Name) and e.args[0].id == buf:
+        return (1, 0, 0)
+    if isinstance(e, ast.BinOp) and isinstance(e.op, (ast.Add, ast.Sub)):
+        l, r = _lin(e.left, buf, lenv), _lin(e.right, buf, lenv)
+        if l is None or r is None:
+            return None
+        sg = 1 if isinstance(e.op, ast.Add) else -1
+        return (l[0] + sg * r[0], l[1] + sg * r[1], l[2] + sg * r[2])
+    return None
+
+
+def _enough_edges(ctx: Context, cfg, buf: str, lenv: str):
+    """[(edge, C)]: on this edge  len(buf) >= <length> + C  is known (from a comparison of the declared length with the bytes left)"""
+    out = []
+    for n in cfg.nodes:
+        if n.kind != "test":
+            continue
+        e = n.exprs[0]
+        if not (isinstance(e, ast.Compare) and len(e.ops) == 1):
+            continue
+        l, r = _lin(e.left, buf, lenv), _lin(e.comparators[0], buf, lenv)
+        if l is None or r is None:
+            continue
+        a, b, k = l[0] - r[0], l[1] - r[1], l[2] - r[2]  # a*len + b*L + k  <op>  0
+        op = type(e.ops[0]).__name__
+        if (a, b) == (1, -1):
+            # len - L + k <op> 0
+            facts = {"GtE": ("T", -k), "Gt": ("T", 1 - k), "Lt": ("F", -k), "LtE": ("F", 1 - k), "Eq": ("T", -k), "NotEq": ("F", -k)}
+        elif (a, b) == (-1, 1):
+            # -len + L + k <op> 0   <=>   len - L - k <op'> 0
+            facts = {"LtE": ("T", k), "Lt": ("T", k + 1), "Gt": ("F", k), "GtE": ("F", k + 1), "Eq": ("T", k), "NotEq": ("F", k)}
+        else:
+            continue
+        if op in facts:
+            lab, c = facts[op]
+            for ed in cfg.out_edges(n, (lab,)):
+                out.append((ed, c))
+    return out
+
+
+def _index_idiom(ctx: Context):
+    """The decoder written with indices and slices: key = buf[0]; length = buf[1]; value = buf[A : A + length]; buf = buf[A + length :]"""
+    f = ctx.func(f"{TLVC}.decode_bytearray")
+    cfg = ctx.cfg(f.qualname)
+    bufs = _wire_buffers(ctx, cfg)
+    res = None
+    for buf in sorted(bufs):
+        idx = {}
+        for n in cfg.nodes:
+            a = n.ast
+            if n.kind == "stmt" and isinstance(a, ast.Assign) and len(a.targets) == 1 and isinstance(a.targets[0], ast.Name) and isinstance(a.value, ast.Subscript) and isinstance(a.value.value, ast.Name) and a.value.value.id == buf:
+                if not isinstance(a.value.slice, ast.Slice):
+                    i = ctx.const(f, a.value.slice, None)
+                    if isinstance(i, int):
+                        idx[i] = (n, a.targets[0].id)
+        if 0 in idx and 1 in idx:
+            res = (f, cfg, buf, idx[0], idx[1])
+    return res
+
+
+def _g1_t1_index_idiom(ctx: Context, rule: str) -> bool:
+    """G1/T1 for the index/slice form of the decoder.  Returns False when the decoder is not written that way."""
+    ck = ctx.ck
+    r = _index_idiom(ctx)
+    if r is None:
+        return False
+    f, cfg, buf, (kn, keyv), (ln, lenv) = r
+    # value slice and advance
+    take = keep = None
+    for n in cfg.nodes:
+        a = n.ast
+        if n.kind == "stmt" and isinstance(a, ast.Assign) and isinstance(a.value, ast.Subscript) and isinstance(a.value.slice, ast.Slice) and isinstance(a.value.value, ast.Name) and a.value.value.id == buf:
+            sl = a.value.slice
+            lo = _lin(sl.lower, buf, lenv) if sl.lower is not None else (0, 0, 0)
+            hi = _lin(sl.upper, buf, lenv) if sl.upper is not None else None
+            if isinstance(a.targets[0], ast.Name) and a.targets[0].id == buf and sl.upper is None:
+                keep = (n, lo)
+            elif sl.upper is not None:
+                take = (n, lo, hi)
+    if take is None or keep is None or take[1] is None or take[2] is None or keep[1] is None:
+        ck.unknown(rule, "decode_bytearray (index form): value slice / advance not recognised", f.loc())
+        return True
+    A = take[1][2] if take[1][:2] == (0, 0) else None
+    if rule == "C15.T1":
+        ck.check(rule, A == 2 and take[2] == (0, 1, 2), "value = buffer[2 : 2 + length] (type at 0, length at 1)", f"{ctx.fkey(f)}:value-slice",
+                 f"decode_bytearray takes the value from {take[1]}..{take[2]} (as a*len + b*length + k): it must be buffer[2 : 2 + length]", ctx.loc(f, take[0]))
+        ck.check(rule, keep[1] == take[2], "the buffer advances to exactly the end of the value", f"{ctx.fkey(f)}:slice-terms",
+                 f"decode_bytearray advances to {keep[1]} but the value ended at {take[2]} (a*len + b*length + k)", ctx.loc(f, keep[0]))
+        p = cfg.find_path(ln.id, keep[0].id, avoid_nodes=[take[0].id])
+        ck.check(rule, p is None, "the value is taken before the buffer is advanced", f"{ctx.fkey(f)}:take-before-advance", "decode_bytearray advances the buffer before taking the value", ctx.loc(f, keep[0]))
+        # works on a copy: definitions reaching the index reads
+        du = ctx.terms.du(cfg)
+        bad = []
+        for def_nid, d in du.reaching(kn.id, buf):
+            v = d.value
+            ok = d.kind == "assign" and ((isinstance(v, ast.Call) and ((isinstance(v.func, ast.Attribute) and v.func.attr == "copy") or (isinstance(v.func, ast.Name) and v.func.id in ("bytearray", "bytes"))))
+                                         or (isinstance(v, ast.Subscript) and isinstance(v.slice, ast.Slice)) or isinstance(v, ast.Name))
+            if not ok:
+                bad.append(cfg.nodes[def_nid])
+        ck.check(rule, not bad, "the decoder never mutates the caller's buffer (index form only reads and re-slices)", f"{ctx.fkey(f)}:consumes-callers-buffer",
+                 "decode_bytearray's cursor is not a copy/slice of the input", ctx.loc(f, kn))
+        return True
+    # G1: never a short value - the value is stored only after  len(buffer) >= length + A  was established
+    need = A if A is not None else 10**6
+    gates = [ed for ed, c in _enough_edges(ctx, cfg, buf, lenv) if c >= need]
+    stores = []
+    for n in cfg.nodes:
+        a = n.ast
+        if n.kind != "stmt":
+            continue
+        if isinstance(a, ast.AugAssign) and isinstance(a.target, ast.Subscript):
+            stores.append(n)
+        for c in ctx.calls(n):
+            if isinstance(c.func, ast.Attribute) and c.func.attr in ("append", "extend", "insert") and not (isinstance(c.func.value, ast.Name) and c.func.value.id == buf):
+                stores.append(n)
+    stores = [x for x in stores if "logger" not in _u(x.ast)]
+    for st in stores:
+        ctx.must_pass(rule, cfg, st, f"declared length fits: len(buffer) >= length + {need}", gates,
+                      desc=f"decode_bytearray: `{st.text()[:50]}` only after the declared length was checked against the bytes available")
+    weaker = [c for ed, c in _enough_edges(ctx, cfg, buf, lenv) if c < need]
+    if weaker and not gates:
+        ck.note(f"decode_bytearray: a length test establishes only len >= length + {max(weaker)}, the value slice needs + {need}")
+    # merge of equal-typed neighbours (shared with the pop form)
+    return True
+
+
 def _g1(ctx: Context) -> None:
     ck = ctx.ck
     f, cfg, pops = _decoder_parts(ctx)
     T = ctx.terms
+    if len(pops) != 2 and _g1_t1_index_idiom(ctx, "C15.G1"):
+        _merge_check(ctx, f, cfg, _index_idiom(ctx)[3][1])
+        return
     if len(pops) != 2:
         ck.unknown("C15.G1", f"decode_bytearray: expected two pops (type, length), found {len(pops)}", f.loc())
         return
@@ -206,6 +346,12 @@ def _g1(ctx: Context) -> None:
     for s in stores:
         ctx.must_pass("C15.G1", cfg, s, "length test [declared length == bytes available]", gate,
                       desc=f"decode_bytearray: `{s.text()[:50]}` only after the declared length was checked against the bytes available")
+    _merge_check(ctx, f, cfg, keyv)
+
+
+def _merge_check(ctx: Context, f, cfg, keyv: str) -> None:
+    ck = ctx.ck
+    T = ctx.terms
     # merge of equal-typed neighbours
     merged = False
     for n in cfg.nodes:
@@ -227,6 +373,8 @@ def _t1(ctx: Context) -> None:
     ck = ctx.ck
     f, cfg, pops = _decoder_parts(ctx)
     T = ctx.terms
+    if len(pops) != 2 and _g1_t1_index_idiom(ctx, "C15.T1"):
+        return
     if len(pops) != 2:
         ck.unknown("C15.T1", f"decode_bytearray: expected two pops (type, length), found {len(pops)}", f.loc())
         return
@@ -495,6 +643,22 @@ def _g3(ctx: Context) -> None:
                 k = ctx.const(f, m[0], None)
                 if k in (LAST, DATA):
                     tests[k] = (n, m[2])
+                continue
+            # presence by value: `.get(K)` truthiness treats a zero-length fragment as absent
+            t = strip_sites(T.of(cfg, n, n.exprs[0]))
+            inner, strict = t, False
+            if t[0] == "cmp" and t[1] in (("IsNot",), ("Is",)) and t[2][1] == ("const", None):
+                inner, strict = t[2][0], True
+            if inner[0] == "call" and inner[1][0] == "attr" and inner[1][2] == "get" and inner[2] and inner[2][0][0] == "const" and inner[2][0][1] in (LAST, DATA):
+                k = inner[2][0][1]
+                if strict:
+                    tests[k] = (n, t[1] == ("IsNot",))
+                else:
+                    ck.violated("C15.G3", f"{ctx.fkey(f)}:fragment-presence-by-truthiness:{k}",
+                                f"_pairing_char_write tests the presence of TLV type {k} by the truthiness of .get({k}): a zero-length "
+                                f"{'FragmentLast' if k == LAST else 'FragmentData'} item (a valid TLV8 item, sent when the response length is an exact multiple of the "
+                                "fragment size) is treated as absent and the reassembled response is discarded", ctx.loc(f, n))
+                    tests[k] = (n, True)
     if set(tests) != {LAST, DATA}:
         ck.unknown("C15.G3", "_pairing_char_write: FragmentLast / FragmentData tests not found", f.loc())
         return
